@@ -149,6 +149,8 @@ def run(ctx):
     for kind in ("Position", "NedVelocity"):
         C06._one(ctx, py, kind, False, False, False)
 
+    from props import helpers as _helpers
+    ctx.guard(_helpers.integrator_argument_forms, ctx, py, "C13")
     # frame of the modules under contract (no state kept between calls, arguments left alone): same analysis as C19
     from props import C19 as _C19
     ctx.guard(_C19.frame_obligations, ctx, py, "C13", {'measurements', 'strapdown', 'filters', 'error_model', '_numba_integrate'})
